@@ -199,13 +199,39 @@ std::string ident(Reader& r, bool group) {
     case 6: { std::string s = r.str(4, "ab01"); return s + (r.below(2) ? "b" : "1"); }                                   // short needle over the repeat alphabet
     }
 }
-size_t number(Reader& r) {   // 1..99999 (A.5)
+// Operand of a numeric option.  determinate: a plain digit string (leading zeros allowed) whose value the help text / the
+// documented unsigned conversion fixes; otherwise (sign, trailing junk, 0, >= 2^32, 20..40 digits) the statement does not say
+// what the value is and only "attached and separated form agree" + memory safety is required.
+struct NumVal { std::string text; bool determinate; unsigned long long value; };
+NumVal number(Reader& r) {
     static const size_t lat[] = {1, 2, 3, 4, 5, 9, 10, 42, 100, 12345, 65535, 65536, 99999};
-    unsigned k = r.below(16);
-    return k < 13 ? lat[k] : 1 + (size_t)r.below(99999);
+    auto dec = [](unsigned long long v) { return sfmt("%llu", v); };
+    unsigned k = r.below(32);                       // 0..15 as before (old inputs keep their meaning), 16..31 the boundary classes
+    if (k < 13) return {dec(lat[k]), true, lat[k]};
+    if (k < 16) { unsigned long long v = 1 + (unsigned long long)r.below(99999); return {dec(v), true, v}; }
+    switch (k) {
+    default:
+    case 16: return {"2147483647", true, 2147483647ULL};
+    case 17: return {"2147483648", true, 2147483648ULL};
+    case 18: return {"2147483649", true, 2147483649ULL};
+    case 19: return {"4294967295", true, 4294967295ULL};
+    case 20: return {"4294967296", false, 4294967296ULL};
+    case 21: return {"4294967297", false, 4294967297ULL};
+    case 22: return {r.below(2) ? "00" : "0", false, 0};
+    case 23: { size_t v = lat[r.below(13)]; return {std::string(1 + r.below(12), '0') + dec(v), true, v}; }
+    case 24: return {"+" + dec(lat[r.below(13)]), false, 0};
+    case 25: { static const char* junk[] = {"ab", " ", "x", ".5", "e3", "-", ",1"}; return {dec(lat[r.below(13)]) + junk[r.below(7)], false, 0}; }
+    case 26: { size_t len = 11 + r.below(30); std::string t = "1"; for (size_t i = 1; i < len; i++) t.push_back((char)('0' + r.below(10))); return {t, false, 0}; }
+    case 27: return {"3000000000", true, 3000000000ULL};
+    case 28: { unsigned long long v = 0x80000000ULL + (r.u32() & 0x7fffffffu); return {dec(v), true, v}; }
+    case 29: { unsigned long long v = 0x80000000ULL + (r.u32() & 0x7fffffffu); return {"00" + dec(v), true, v}; }
+    case 30: return {"-" + dec(lat[r.below(13)]), false, 0};
+    case 31: { unsigned long long v = r.u32() | 1u; return {dec(v), true, v}; }
+    }
 }
 
-struct Opt { std::vector<std::string> args; std::string what; bool valued = false, separated = false, paired = false; };
+struct Opt { std::vector<std::string> args; std::string what; bool valued = false, separated = false, paired = false;
+             bool seed_valued = false; std::string num_text; bool undetermined = false; };
 
 // decodes one documented option, renders it and applies its documented meaning to `c`; returns false for -h (reject with help)
 bool gen_option(Reader& r, Config& c, Opt& o) {
@@ -231,13 +257,20 @@ bool gen_option(Reader& r, Config& c, Opt& o) {
         return true; }
     case 1: {   // -r[<#>]  (attached form only: that is what the help documents)
         if (r.below(3) == 0) { o.args.push_back("-r"); c.repeat = 2; o.what = "-r"; }
-        else { size_t n = number(r); o.args.push_back(sfmt("-r%zu", n)); c.repeat = n; o.what = "-rN"; o.valued = true; }
+        else {   // the repeat count is converted into an int: determinate for 1..2^31-1
+            NumVal n = number(r); o.args.push_back("-r" + n.text); o.what = "-rN"; o.valued = true;
+            if (n.determinate && n.value >= 1 && n.value <= 2147483647ULL) c.repeat = (size_t)n.value; else o.undetermined = true;
+        }
         return true; }
     case 2: {   // -s [<seed>]
         unsigned form = r.below(3);
         c.shuffle = true;
         if (form == 0) { o.args.push_back("-s"); c.seedKnown = false; o.what = "-s"; }
-        else { size_t n = number(r); valued("-s", sfmt("%zu", n), form == 2); c.seedKnown = true; c.seed = n; o.what = form == 2 ? "-s N" : "-sN"; }
+        else {   // the seed is converted into an unsigned: determinate for 1..2^32-1, the same in both forms
+            NumVal n = number(r); valued("-s", n.text, form == 2); o.what = form == 2 ? "-s N" : "-sN";
+            o.seed_valued = true; o.num_text = n.text;
+            if (n.determinate && n.value >= 1 && n.value <= 4294967295ULL) { c.seedKnown = true; c.seed = (size_t)n.value; } else o.undetermined = true;
+        }
         return true; }
     case 3: {   // -o<kind>, -k <package>
         unsigned k = r.below(6);
@@ -296,7 +329,7 @@ std::string safety_tail(Reader& r) {
     case 4: { static const char a[] = "aA.,() 0123456789-+\t"; return r.str(12, a, sizeof a - 1); }
     case 5: return r.bytes(20);
     case 6: return r.str(14, "0123456789");
-    case 7: { static const char* t[] = {",", ")", ", ", "(", ",)", "a,", "a)", ".", "..", "a.", ".a", "a.b.c", " ", "junit", "normal", "-1", "+5", "0", "00", "4294967296", "aab", "001", "abac", "abab"}; return t[r.below(24)]; }
+    case 7: { static const char* t[] = {",", ")", ", ", "(", ",)", "a,", "a)", ".", "..", "a.", ".a", "a.b.c", " ", "junit", "normal", "-1", "+5", "0", "00", "4294967296", "aab", "001", "abac", "abab", "2147483648", "4294967295", "3000000000", "0000000007"}; return t[r.below(28)]; }
     }
 }
 std::vector<std::string> gen_safety_structured(Reader& r) {
@@ -492,9 +525,15 @@ int meaning_case(Reader& r, bool& nontrivial, std::string& desc) {
     Config want; std::vector<std::string> args; args.push_back("probe.exe");
     size_t nopt = r.below(9);
     bool help = false; size_t valued = 0; bool sep_or_pair = false;
+    bool undetermined = false; std::vector<std::string> other_form; other_form.push_back("probe.exe"); size_t seeds_flipped = 0;
     for (size_t k = 0; k < nopt; k++) {
         Opt o; bool go_on = gen_option(r, want, o);
         for (auto& a : o.args) args.push_back(a);
+        if (o.seed_valued) {   // the same vector with every -s <seed> written in the other documented form
+            seeds_flipped++;
+            if (o.separated) other_form.push_back("-s" + o.num_text); else { other_form.push_back("-s"); other_form.push_back(o.num_text); }
+        } else for (auto& a : o.args) other_form.push_back(a);
+        if (o.undetermined) undetermined = true;
         verif::cls(("opt:" + o.what).c_str());
         if (o.valued) { valued++; verif::cls(o.separated ? "form:separated" : "form:attached"); }
         if ((o.valued && o.separated) || o.paired) sep_or_pair = true;
@@ -511,6 +550,43 @@ int meaning_case(Reader& r, bool& nontrivial, std::string& desc) {
 
     GlobalsGuard guard;
     Argv argv(args);
+    if (seeds_flipped) {
+        // attached and separated form of a documented option mean the same: same verdict, same configuration, whatever the operand
+        verif::cls(undetermined ? "numeric:forms-compared(value-not-determined-by-the-help)" : "numeric:forms-compared");
+        Argv alt(other_form);
+        Config c1, c2; bool ok1, ok2, h1, h2; std::string err;
+        for (int which = 0; which < 2; which++) {
+            MemoryLeakWarningPlugin memleak(DEF_PLUGIN_MEM_LEAK);
+            TestRegistry reg; reg.installPlugin(&memleak);
+            SetPointerPlugin sp(DEF_PLUGIN_SET_POINTER); reg.installPlugin(&sp);
+            const Argv& v = which ? alt : argv;
+            CommandLineArguments a(v.ac, v.av);
+            verif::fake_millis_value = 0;
+            bool ok = a.parse(reg.getFirstPlugin());
+            (which ? ok2 : ok1) = ok; (which ? h2 : h1) = a.needHelp();
+            if (ok) V_CHECK(read_config(a, which ? c2 : c1, err), "C12:getters", "%s [%s]", err.c_str(), show_args(which ? other_form : args).c_str());
+        }
+        V_CHECK(ok1 == ok2 && h1 == h2, "C12:forms-disagree", "%s is %s, the same options with -s <seed> in the other form %s are %s",
+                show_args(args).c_str(), ok1 ? "accepted" : "rejected", show_args(other_form).c_str(), ok2 ? "accepted" : "rejected");
+        if (ok1) {
+            std::vector<Flt> g1 = c1.gf, g2 = c2.gf, n1 = c1.nf, n2 = c2.nf;
+            std::sort(g1.begin(), g1.end()); std::sort(g2.begin(), g2.end()); std::sort(n1.begin(), n1.end()); std::sort(n2.begin(), n2.end());
+            bool same = c1.verbose == c2.verbose && c1.veryVerbose == c2.veryVerbose && c1.color == c2.color && c1.sep == c2.sep && c1.reverse == c2.reverse && c1.lg == c2.lg && c1.ln == c2.ln
+                     && c1.ll == c2.ll && c1.runIgnored == c2.runIgnored && c1.crash == c2.crash && c1.rethrow == c2.rethrow && c1.repeat == c2.repeat && c1.shuffle == c2.shuffle
+                     && c1.seed == c2.seed && c1.output == c2.output && c1.package == c2.package && g1 == g2 && n1 == n2;
+            V_CHECK(same, "C12:forms-disagree", "%s and %s are both accepted but give different configurations (seed %zu / %zu, repeat %zu / %zu)",
+                    show_args(args).c_str(), show_args(other_form).c_str(), c1.seed, c2.seed, c1.repeat, c2.repeat);
+        }
+    }
+    if (undetermined) {   // the help does not fix the value: parse it (memory safety, getters) and stop
+        verif::cls("numeric:value-not-determined-by-the-help");
+        MemoryLeakWarningPlugin memleak(DEF_PLUGIN_MEM_LEAK);
+        TestRegistry reg; reg.installPlugin(&memleak);
+        SetPointerPlugin sp(DEF_PLUGIN_SET_POINTER); reg.installPlugin(&sp);
+        CommandLineArguments a(argv.ac, argv.av);
+        if (a.parse(reg.getFirstPlugin())) { Config got; std::string err; V_CHECK(read_config(a, got, err), "C12:getters", "%s [%s]", err.c_str(), desc.c_str()); }
+        return 0;
+    }
     {
         MemoryLeakWarningPlugin memleak(DEF_PLUGIN_MEM_LEAK);   // per case: the real entry point destroys the global detector when it returns
         TestRegistry reg; reg.installPlugin(&memleak);
